@@ -156,6 +156,9 @@ def nested_programs(tier, hi):
     progs += [("slice", ("proj", ("sort", CH, TOT), ("a", "v")), 0, 2), ("proj", ("sort", CH, TOT), ("a",)), ("slice", ("sort", CH, NEG), 1, 3),
               ("sort", CH, NEG), ("dedup", ("proj", ("slice", ("sort", CH, TOT), 0, 3), ("a",))), ("slice", ("sort", ("dedup", CH), NEG), 0, 2),
               ("proj", ("slice", ("sort", CH, ((("add", A, B), True),) + TOT), 1, 4), ("b", "v"))]
+    HB = ("calc", ("proj", ("sort", X, ((B, True), (A, True), (V, True))), ("a", "v")), "b", ("neg", A))
+    progs += [("slice", HB, 0, 1), ("slice", HB, 1, 2), HB, ("calc", ("proj", ("slice", ("sort", X, ((B, True), (A, True), (V, True))), 0, 1), ("a", "v")), "b", ("neg", A)),
+              ("dedup", ("calc", ("proj", ("dedup", X), ("a",)), "b", ("add", A, A))), ("sel", ("calc", ("proj", X, ("a", "v")), "b", ("neg", A)), ("gt", B, ("lit", "$k")))]
     E0 = ("slice", X, 0, 0)
     progs += [("join", E0, Z, None), ("join", Z, E0, None), ("chain", E0, Y), ("chain", Y, E0), ("dedup", E0), ("sel", E0, K),
               ("join", ("slice", ("proj", X, ("a", "b")), None, 0), Z, ("lt", B, D)), ("dedup", ("join", ("slice", ("slice", X, 0, 2), 0, 0), Z, None)),
